@@ -231,7 +231,17 @@ def step(S, cname):
     ncex = 0
     npaths = 0
     I = Interp()
-    I.stubs[__import__("warnings").warn] = lambda interp, a, k: None
+    wcount = [0]
+
+    def warn_stub(interp, a, k):
+        # environment: a warning either passes silently or is escalated to an exception (python -W error, pytest
+        # filterwarnings=error): both outcomes are explored (nondeterministic choice = fresh boolean)
+        wcount[0] += 1
+        if interp.branch(z3.Bool("warning_escalated_%d" % wcount[0])):
+            cat = a[1] if len(a) > 1 and isinstance(a[1], type) else k.get("category", UserWarning)
+            raise PyRaise(cat("escalated warning"))
+        return None
+    I.stubs[__import__("warnings").warn] = warn_stub
     for enum_pre in enumerated_prestates(comps):
         for args, _inv, argdesc in ctor_args(cls, comps, None):
             for body_raises in (False, True):
@@ -249,14 +259,26 @@ def step(S, cname):
                             inv.append(iv)
 
                 def run(I):
+                    wcount[0] = 0
                     I.pc.extend(inv)
                     for (c, a), v in pre.items():
                         I.setattr(c, a, v)
                     out = {"post": [], "raised": None}
                     try:
                         pre_vis = {c: visible(I, c) for c in comps}
-                        cm = I.call(cls, (), dict(args))
-                        I.call(I.getattr(cm, "__enter__"))
+                        try:
+                            cm = I.call(cls, (), dict(args))
+                            I.call(I.getattr(cm, "__enter__"))
+                        except PyRaise as e:
+                            if not isinstance(e.exc, Warning):
+                                raise
+                            # exception at the block-entry boundary: __exit__ will not run, so nothing may have changed
+                            for (oid, attr), v in list(I.heap.items()):
+                                obj = I.keep[oid]
+                                if isinstance(obj, type) and attr not in CACHE_FIELDS:
+                                    ref = pre[(obj, attr)] if (obj, attr) in pre else obj.__dict__.get(attr, "<absent>")
+                                    out["post"].append(("entry-exception-leaves-state:%s.%s" % (obj.__name__, attr), same_formula(v, ref)))
+                            return out
                         # innermost block wins
                         for c in comps:
                             vis = visible(I, c)
@@ -325,7 +347,8 @@ def step(S, cname):
                             cex = {"class": cname, "pre": {"%s.%s" % (c.__name__, a): (d(m) if callable(d) else d) for (c, a), d in desc.items()},
                                    "pre_enum": {"%s.%s" % (c.__name__, a): str(v) for (c, a), v in enum_pre.items()},
                                    "args": {k: (argdesc[k](m) if callable(argdesc.get(k)) else str(args[k])) for k in args},
-                                   "body_raises": body_raises, "obligation": lab}
+                                   "body_raises": body_raises, "obligation": lab,
+                                   "escalate_warnings": any(z3.is_true(m.eval(z3.Bool("warning_escalated_%d" % k), True)) for k in range(1, 4))}
                             rep = replay_step(None, cls, cex)
                             if rep:
                                 ncex += 1
@@ -360,10 +383,15 @@ def replay_step(S, cls, cex):
             setattr(c, a, v)
         before = {(c, a): v for c in allc for a, v in list(vars(c).items()) if (c, a) in saved}
         args = {k: _parse_val(v) if isinstance(v, str) else v for k, v in cex.get("args", {}).items()}
+        import warnings as _w
         try:
-            with cls(**args):
-                if cex.get("body_raises"):
-                    raise KeyError("boom")
+            with _w.catch_warnings():
+                _w.simplefilter("error" if cex.get("escalate_warnings") else "ignore")
+                with cls(**args):
+                    if cex.get("body_raises"):
+                        raise KeyError("boom")
+        except Warning:
+            pass  # escalated warning at the block boundary: the state comparison below decides
         except KeyError:
             if not cex.get("body_raises"):
                 failure = "unexpected KeyError"
